@@ -609,6 +609,17 @@ do_retrieve(void)
   if (rv == MORE) {
     Trace(("Retriever blocked waiting for input"));
     VERIF_REACH("x.retrieve.more");
+    if (rb->curr_pos.offset < head_offs) {
+      /* The master has already advanced past this position and released the
+         input this job would need next, which proves that it was started
+         from a mis-recognized bit pattern.  advance() drops such jobs from
+         retr_q, but it could not see this one because it was running. */
+      decoder_free(&rb->ds);
+      free(rb);
+      work_units++;
+      check_invariants();
+      return;
+    }
     enqueue(retr_q, rb);
     check_invariants();
     return;
